@@ -1,6 +1,7 @@
 import Swat4.Drv.StoreRun
 import Swat4.Model.USys
 import Swat4.Model.UseCases.ProberRun
+import Swat4.Model.HarnessCfg
 /-!
 Shared by the use-case level drivers (C13–C16): parsing of `ucops.Client` specs into `Prog`
 programs that render their own result, replay of the harness' *effective* call-granularity
@@ -68,9 +69,11 @@ def renderProberReport : Except RErr ProberReport → String
   | .error e => tagRErr e
   | .ok r => "+".intercalate (s!"popped:{r.popped}:{r.expired}" :: r.ends.map tagProbeEnd)
 
+/-- the use-case retry budgets; the defaults are what the harness configured (`Model/HarnessCfg.lean`, mirroring
+`harness/internal/world/world.go:71`) -/
 structure UCfg where
-  revivalRetries : Int := 2
-  refreshRetries : Int := 4
+  revivalRetries : Int := Harness.revivalRetries
+  refreshRetries : Int := Harness.refreshRetries
 
 /-- a parsed `ucops.Client` spec -/
 inductive USpec where
